@@ -272,6 +272,27 @@ def rule_eligible_only(ctx):
     if adds and head is not None:
         names, tab = W.table({"add": adds}, start=head)
         okw = "add" in tab.get((True,), set()) and "add" not in tab.get((False,), {"add"})
+    if not okw and agg is not None:
+        # computed afterwards from the finished lists: leader_weight derives from the `leaders` list (whose members are
+        # pinned above) and sums `.weight` of the validators it indexes
+        LFw = Q.LocalFlow(n)
+        ld = dict(agg[3]).get("leaders")
+        lw = dict(agg[3]).get("leader_weight")
+        if ld is not None and lw is not None and lw[0] == "call" and lw[1] in ("std::iter::Iterator::sum", "std::iter::Iterator::fold"):
+            # single-definition form: sum(map(iter(<leaders>), |&i| vec[i].weight))
+            src_ok = any(x == ld or (ld[0] == "call" and x == ld) for x in subterms(lw)) or (ld[0] == "call" and any(x[0] == "call" and x[1] == ld[1] and x[2] == ld[2] for x in subterms(lw)))
+            cls = [x for x in subterms(lw) if x[0] == "closure"]
+            w_ok = False
+            for c0 in cls:
+                g0 = ctx.F.by_qname.get(c0[1], [None])[0]
+                rt0 = Inliner(ctx).ret_term(g0) if g0 is not None else None
+                w_ok = w_ok or (rt0 is not None and chain(rt0)[1][-1:] == ["weight"])
+            okw = src_ok and w_ok
+        elif ld is not None and lw is not None and ld[0] == "var" and lw[0] == "var" and LFw.derives_from_local(lw[1], ld[1]):
+            fam = common.family(ctx, n, ("closure",))
+            if any((Inliner(ctx).ret_term(g) is not None and chain(Inliner(ctx).ret_term(g))[1][-1:] == ["weight"]) for g in fam) and \
+                    LFw.derives_from_call(lw[1], lambda q: q in ("std::iter::Iterator::sum", "std::iter::Iterator::fold", "std::iter::Iterator::try_fold")):
+                okw = True
     ctx.ob(R, "leader_weight sums leader weights", okw, "leader_weight is increased only for validators flagged leader" if okw else "leader_weight accumulation is not guarded by v.leader", n.loc())
 
 
